@@ -48,7 +48,7 @@ Definition is_num (cls : tclass) : bool := match cls with KNum => true | _ => fa
 (* restriction on the text within a class: only multi-line comments among the comment forms *)
 Definition text_ok (cls : tclass) (T : list Z) : Prop :=
   match cls with
-  | KComment => firstz 2 T = [47; 42] \/ firstz 2 T = [47; 47]
+  | KComment => firstz 2 T = [47; 42] \/ firstz 2 T = [47; 47] \/ firstz 4 T = [60; 33; 45; 45]
   | _ => True
   end.
 
@@ -208,13 +208,24 @@ Proof.
            unfold ErrorToken in Hnty, Hne;
            fin_ext z T (c :: R'') Hw Hst Hsuf HR' Hstep
        end);
-  (* HTML-like comments are not covered: the text of a covered comment starts with "/*" *)
+  (* HTML-like comments "<!--..." in front of LF / CR ("-->..." is not covered) *)
   try (match goal with
-       | E0 : html_comment _ _ = Ok _ , Hty0 : ty = CommentToken |- _ =>
-           exfalso; subst ty; injection Hcls as <-; cbn [text_ok] in Htxt;
-           destruct T as [|t0 T']; [discriminate|]; cbn [app] in E; rewrite pkl_cons_0 in E;
-           assert (t0 = a) by congruence; subst t0;
-           rewrite firstz_cons in Htxt by lia; assert (a = 47) by (destruct Htxt; congruence); lia
+       | E0 : html_comment _ (T ++ [0]) = Ok ?n , Hty0 : ty = CommentToken |- _ =>
+           assert (n = len T) by lia; subst n ty; injection Hcls as <-; cbn [text_ok stop_for] in Htxt, Hstop;
+           assert (Ha : firstz 1 T = [a])
+             by (destruct T as [|t0 T']; [discriminate|]; cbn [app] in E; rewrite pkl_cons_0 in E;
+                 rewrite firstz_cons by lia; rewrite firstz_le0 by lia; congruence);
+           assert (Htx4 : firstz 4 T = [60; 33; 45; 45])
+             by (destruct Htxt as [Htxt|[Htxt|Htxt]]; [exfalso|exfalso|exact Htxt];
+                 (destruct T as [|t0 T']; [discriminate|]; rewrite firstz_cons in Htxt, Ha by lia;
+                  assert (t0 = a) by congruence; assert (t0 = 47) by congruence; lia));
+           destruct (hd_cons_nonempty R' HR') as (c & R'' & HRc & Hc); rewrite Hc in Hstop; subst R';
+           assert (Hlf : c = 10 \/ c = 13)
+             by (destruct Hstop as [Hstop|Hstop]; [exfalso|exact Hstop];
+                 destruct T as [|t0 [|t1 T']]; try discriminate;
+                 rewrite !firstz_cons in Hstop, Htx4 by lia; assert (t0 = 47) by congruence; assert (t0 = 60) by congruence; lia);
+           pose proof (html_comment_exchange_open T [0] c R'' _ plt0 _ H0R Hnt Hlf E0 eq_refl Htx4) as E0';
+           open_ext E (c :: R'') Hsuf; rewrite E0'; cbn [rbind]; use_conds; fin_ext z T (c :: R'') Hw Hst Hsuf HR' Hstep
        end);
   (* comments: "/*...*/" in front of anything, "//..." in front of LF / CR *)
   try (match goal with
@@ -226,11 +237,13 @@ Proof.
              by (destruct Hcty as [->|[->| ->]]; [congruence|injection Hcls as <-; reflexivity|injection Hcls as <-; reflexivity]);
            subst cls; cbn [text_ok stop_for] in Htxt, Hstop;
            assert (E0' : comment (T ++ R') = Ok (len T, t, e, sl))
-             by (destruct Htxt as [Htxt|Htxt];
+             by (destruct Htxt as [Htxt|[Htxt|Htxt]];
                  [ apply (comment_exchange T [0] R' _ _ _ _ H0R HR' E0 eq_refl Hne Htxt)
-                 | destruct (hd_cons_nonempty R' HR') as (c & R'' & HRc & Hc); rewrite Hc in Hstop; subst R';
+                 | | exfalso; destruct T as [|t0 T']; [discriminate|]; cbn [app] in E; rewrite pkl_cons_0 in E;
+                     rewrite firstz_cons in Htxt by lia; assert (a = 60) by congruence; lia ];
+                 destruct (hd_cons_nonempty R' HR') as (c & R'' & HRc & Hc); rewrite Hc in Hstop; subst R';
                    destruct Hstop as [Hstop|Hstop]; [rewrite Htxt in Hstop; discriminate|];
-                   apply (comment_exchange_line T [0] c R'' _ _ _ _ H0R Hnt Hstop E0 eq_refl Htxt) ]);
+                   apply (comment_exchange_line T [0] c R'' _ _ _ _ H0R Hnt Hstop E0 eq_refl Htxt));
            unfold ErrorToken, CommentToken, CommentLineTerminatorToken in Hcty, Hne;
            open_ext E R' Hsuf; rewrite E0'; cbn [rbind]; use_conds; destruct sl; fin_ext z T R' Hw Hst Hsuf HR' Hstep
        end);
@@ -651,7 +664,7 @@ Qed.
 
 End SeqNext.
 
-(* non-vacuity: a 'x'/*c*/`t`>>>= LF if(0x1F_fn;1.5e+3//c CR LF `a${{x}}b${`n${1}`}c`; with no class for
+(* non-vacuity: a 'x'/*c*/`t`>>>= LF if(0x1F_fn;1.5e+3//c CR LF `a${{x}}b${`n${1}`}c`;<!--h LF with no class for
    non-ASCII runes: nested templates, a block inside a substitution, all literal kinds *)
 Example ex_seq_ok : seq_ok nocls nocls nocls false 0 []
   [(IdentifierToken, [97]); (WhitespaceToken, [32]); (StringToken, [39; 120; 39]);
@@ -661,11 +674,12 @@ Example ex_seq_ok : seq_ok nocls nocls nocls false 0 []
    (DecimalToken, [49; 46; 53; 101; 43; 51]); (CommentToken, [47; 47; 99]); (LineTerminatorToken, [13; 10]);
    (TemplateStartToken, [96; 97; 36; 123]); (OpenBraceToken, [123]); (IdentifierToken, [120]); (CloseBraceToken, [125]);
    (TemplateMiddleToken, [125; 98; 36; 123]); (TemplateStartToken, [96; 110; 36; 123]); (IntegerToken, [49]);
-   (TemplateEndToken, [125; 96]); (TemplateEndToken, [125; 99; 96]); (SemicolonToken, [59])].
+   (TemplateEndToken, [125; 96]); (TemplateEndToken, [125; 99; 96]); (SemicolonToken, [59]);
+   (CommentToken, [60; 33; 45; 45; 104]); (LineTerminatorToken, [10])].
 Proof.
   Ltac ex_side := cbn [text_ok stop_for follower texts map concat snd app hd is_num punct1]; unfold op_stop;
     repeat split; try lia; try reflexivity; try discriminate; try (intros; discriminate);
-    try (left; reflexivity); try (right; reflexivity); try (right; left; reflexivity).
+    try (left; reflexivity); try (right; reflexivity); try (right; left; reflexivity); try (right; right; reflexivity).
   Ltac ex_tok := eapply sq_cons;
     [unfold relexes; vm_compute; eexists; split; [reflexivity|split; reflexivity]
     | reflexivity | ex_side | reflexivity | ex_side | reflexivity | ex_side | ].
@@ -673,5 +687,5 @@ Proof.
     [ first [left; split; reflexivity | right; split; reflexivity]
     | unfold relexes; vm_compute; eexists; split; [reflexivity|split; reflexivity]
     | reflexivity | ].
-  do 18 ex_tok. ex_cont TemplateStartToken. do 2 ex_tok. ex_cont TemplateToken. ex_cont TemplateToken. ex_tok. apply sq_nil.
+  do 18 ex_tok. ex_cont TemplateStartToken. do 2 ex_tok. ex_cont TemplateToken. ex_cont TemplateToken. do 3 ex_tok. apply sq_nil.
 Qed.
